@@ -311,6 +311,47 @@ func TestSharedSubvalues(t *testing.T) {
 	evid.Exhaustive("leaf kind x shape with one collection on two paths x {strfmt, printf, cast}", n)
 }
 
+// TestRenameAlias: `_` is another spelling of message in every argument of rename: renaming the key onto itself under
+// either spelling changes nothing; renaming between `_` and other keys moves message.
+func TestRenameAlias(t *testing.T) {
+	calls := []func() *gen.Node{
+		func() *gen.Node { return gen.NCall("rename", id("_"), id("message")) },
+		func() *gen.Node { return gen.NCall("rename", id("message"), id("_")) },
+		func() *gen.Node { return gen.NCall("rename", str("_"), id("message")) },
+		func() *gen.Node { return gen.NCall("rename", id("_"), id("_")) },
+		func() *gen.Node { return gen.NCall("rename", id("message"), id("message")) },
+		func() *gen.Node { return gen.NCall("rename", id("other"), id("_")) },
+		func() *gen.Node { return gen.NCall("rename", id("_"), id("other")) },
+		func() *gen.Node { return gen.NCall("rename", id("fresh"), id("_")) },
+		func() *gen.Node { return gen.NCall("rename", id("other"), id("other")) },
+		func() *gen.Node { return gen.NCall("rename", id("keeptag"), id("keeptag")) },
+	}
+	n := 0
+	for ci, mk := range calls {
+		for sit := 0; sit < 4; sit++ {
+			c := sem.NewCase(nil)
+			c.Fields = map[string]any{"other": "other value", "keep": int64(42)}
+			c.Tags = map[string]string{"keeptag": "kt"}
+			var prog []*gen.Node
+			switch sit {
+			case 0:
+				c.Fields["message"] = "the message"
+			case 1:
+				c.Tags["message"] = "message as a tag"
+			case 2: // no message at all
+			default:
+				c.Fields["message"] = "the message"
+				prog = append(prog, gen.NSet("_", gen.NStr("a variable called message")))
+			}
+			prog = append(prog, mk(), gen.NCall("probe", str("after"), gen.NCall("get_key", gen.NStr("message")), gen.NCall("get_key", gen.NStr("other")), gen.NCall("len", id("_"))), gen.NCall("uppercase", id("_")), gen.NCall("probe", str("upper"), gen.NCall("get_key", gen.NStr("message"))))
+			c.Scripts[c.Root] = gen.FixAll(prog)
+			judge(t, "rename-alias", c, fmt.Sprintf("renamealias/%d/%d", ci, sit), true, "rename-alias")
+			n++
+		}
+	}
+	evid.Exhaustive("rename call over the spellings _ / message / other keys x where message lives", n)
+}
+
 // TestArgumentTables: the non-subject arguments of replace / trim / strfmt over their own domains (the cross
 // product above holds them at a few representative values): regular expression x replacement template x subject,
 // cut set x subject, format verbs x argument values.
